@@ -268,8 +268,8 @@ def run_shard(desc, acc):
     i, n, seed = desc["shard"], desc["nshards"], desc["seed"]
     # one group per run that is too wide for the 2^n comparison (the writer enumerates every admissible selection
     # of a cardinality group: 17 members are about what it can write)
-    for wi, (k, mn, mx) in enumerate(((17, 7, 9), (16, 2, 15), (17, 1, 16), (18, 8, 9))):
-        if wi % n == i and (desc["nmax"] > 5 or wi in (0, 1 + seed % 3)):
+    for wi, (k, mn, mx) in enumerate(((17, 7, 9), (17, 2, -1), (16, 2, 15), (17, 1, 16), (18, 8, 9), (17, 15, -1))):
+        if wi % n == i and (desc["nmax"] > 5 or wi in (0, 1, 2 + seed % 4)):
             kids = [{"name": f"G{j}", "rels": []} for j in range(k)]
             spec = {"root": {"name": "W", "rels": [{"min": mn, "max": mx, "children": kids},
                                                    {"min": 0, "max": 1, "children": [{"name": "Side", "rels": []}]}]},
@@ -329,6 +329,23 @@ def run_shard(desc, acc):
             m2["ctcs"] = [{"name": "c0", "ast": ["REQUIRES", twin, b]}]
             run_case(acc, "case-colliding-models", m1)
             run_case(acc, "case-colliding-models", m2)
+    # names that differ only by a hyphen inside (WiFi / Wi-Fi): distinct features, used in one clause
+    for j in range(16):
+        if j % n == i:
+            r = rand.rng(seed, "c10hyphen", j)
+            base = rand.rand_model(r, r.randint(5, 9), group_kinds=("alternative", "or", "mutex"), solitary_kinds=("optional", "optional", "mandatory"))
+            nm = S.feature_names(base)
+            a, b, c = nm[1], nm[2], nm[-1]
+            x, y = r.choice([("WiFi", "Wi-Fi"), ("email", "e-mail"), ("Addon", "Add-on"), ("AB", "A-B")])
+            if x in nm or y in nm:
+                continue
+            ren = {a: x, b: y}
+            for f in S.features(base["root"]):
+                f["name"] = ren.get(f["name"], f["name"])
+            c = ren.get(c, c)
+            base["ctcs"] = [{"name": "h0", "ast": r.choice([["REQUIRES", x, y], ["OR", x, y], ["IMPLIES", y, x], ["EXCLUDES", x, y]])},
+                            {"name": "h1", "ast": ["IMPLIES", ["AND", x, c], y] if c not in (x, y) else ["OR", ["NOT", x], y]}]
+            run_case(acc, "hyphen-twin-names", base)
     for wi, k in enumerate((9, 10, 11, 12, 13)):
         if wi % n == i:
             r = rand.rng(seed, "c10wide", k)
